@@ -101,6 +101,7 @@ def _silent(k):
 
 
 _TRACK = {"after_failed": False}
+
 KEY_AFTER_FAILED = "read_after_failed_read"
 
 
@@ -115,7 +116,7 @@ def _classify(fn, args):
     return None
 
 
-def _drive_reads(env, s, k, reqs, pos, st=S0):
+def _drive_reads(env, s, k, reqs, pos, st=S0, notes=()):
     """Issue the requests one after the other, pumping READ events while one is pending.
     Returns the stream position after the last completed read."""
     _TRACK["after_failed"] = False
@@ -163,6 +164,8 @@ def _drive_reads(env, s, k, reqs, pos, st=S0):
             assert type(exc) is iostream.StreamClosedError and s.closed(), "read failed with %r" % (exc,)
             if isinstance(exc.real_error, iostream.UnsatisfiableReadError):
                 reached("unsatisfiable_closed")
+                if st is S2:
+                    reached("long_unsatisfiable")
                 assert (kind == RU or kind == RX) and mb is not None, "UnsatisfiableReadError for kind %d" % kind
                 e = st.end[kind == RX][n][pos]
                 assert e is None or e - pos > mb, \
@@ -216,6 +219,9 @@ def _drive_reads(env, s, k, reqs, pos, st=S0):
                 assert s.closed(), "read_until_close completed on an open stream"
                 assert len(got) == D - pos, "read_until_close returned %d of %d bytes" % (len(got), D - pos)
                 reached("until_close_done")
+        for tag in notes:                  # scenario tags of the caller, raised once the read completed
+            reached(tag)
+        notes = ()
         assert got == st.data[pos:pos + len(got)], \
             "read returned %r but the stream continues with %r" % (got, st.data[pos:pos + len(got) + 2])
         assert pos + len(got) <= D
@@ -317,6 +323,96 @@ def h_read_one(kind: int, n: int, m: int, pos0: int, b0: int, chunk: int, rscrip
         assert s._read_buffer_size == b0
         s.read_chunk_size = chunk
         _drive_reads(env, s, k, [(kind, n, m)], pos0)
+
+
+# ------------------------------------------------------------------------------------------
+# long delimiters (3 / 4 bytes) cut by the deliveries at every position, before and while the read is pending
+
+def _cut_tags(pos0, b0, j, chunk, rscript):
+    """Vacuity tags (reach twins only): how do the scripted deliveries cut the first occurrence of the delimiter?"""
+    tags = []
+    e = S2.end[False][j][pos0]
+    L = len(DELIMS2[j])
+    if e is None or L < 3:
+        return tags
+    start = e - L
+    at = pos0 + b0
+    cuts = [at]                        # absolute stream offsets at which a delivery ends
+    blocked = False
+    for a in rscript:
+        if a <= 0:
+            blocked = True
+            continue
+        if blocked and start < at < e:
+            tags.append("long_event_boundary")    # the delimiter is completed by a later READ event
+        at += a if a < chunk else chunk
+        cuts.append(at)
+    inside = [c for c in cuts if start < c < e]
+    if at >= e:
+        if inside and inside[0] - start >= 2:
+            tags.append("long_split_2plus")       # >= 2 delimiter bytes in an earlier delivery
+        if len(inside) >= 2:
+            tags.append("long_split_3pieces")
+        if DATA2[pos0:start].find(DELIMS2[j][:2]) >= 0:
+            tags.append("long_after_false_start")
+    else:
+        tags = []
+    return tags
+
+
+def pre_long(si: int, j: int, md: int, b0: int, chunk: int, rscript: List[int], tailreq: int) -> bool:
+    if not (0 <= si < len(STARTS2) and 0 <= j < P.J2 and 0 <= md <= 2 and (md != 1 or P.EXACT) and 0 <= b0 <= P.B0):
+        return False
+    if not (P.CLO <= chunk <= P.C and len(rscript) <= P.K and 0 <= tailreq <= P.TR):
+        return False
+    for a in rscript:
+        if not 0 <= a <= 3:
+            return False
+    return in_shard(si + 4 * j + 16 * (1 if md > 0 else 0))
+
+
+@harness(
+    pre=pre_long,
+    quick=dict(J2=3, EXACT=0, B0=2, CLO=3, C=3, K=3, TR=0, timeout=100, reach_timeout=60),
+    thorough=dict(J2=4, EXACT=1, B0=3, CLO=2, C=4, K=4, TR=1, timeout=1500, reach_timeout=200),
+    nshards=dict(quick=32, thorough=32),
+    reach=["long_split_2plus", "long_split_3pieces", "long_after_false_start", "long_event_boundary",
+           "long_unsatisfiable"],
+    units=_R_UNITS,
+    stubs=_R_STUBS[:2] + [
+        "stream content is the concrete 24-byte DATA2 in which the 4-byte delimiter CRLFCRLF and the 3-byte "
+        "delimiters END and LF CR LF occur at several offsets, each preceded by a false start; the read position "
+        "is one of STARTS2 (symbolic index), max_bytes is None / exactly enough / one byte short, b0 bytes are already buffered when read_until is issued (pre-state "
+        "built through the real API), then up to K scripted deliveries of 0..3 bytes (0 = would-block, i.e. the "
+        "next delivery comes with a separate READ event while the read is pending)"],
+    outside=["delimiters longer than 4 bytes", "read_until_regex with these literals (covered by the regex pool of "
+             "h_read_one only for short patterns)", "more than K deliveries", "EOF during a long-delimiter read (C13)"],
+)
+def h_read_long(si: int, j: int, md: int, b0: int, chunk: int, rscript: List[int], tailreq: int):
+    """read_until(long delimiter) with the delimiter's bytes split over the pre-buffered bytes and the
+    deliveries at every position; optionally followed by a second read (what comes next must be intact)."""
+    with install() as env:
+        si = conc(si, 0, len(STARTS2) - 1)
+        j = conc(j, 0, len(DELIMS2) - 1)
+        pos0 = STARTS2[si]
+        b0 = conc(b0, 0, 8)
+        chunk = conc(chunk, 1, 8)
+        k = Kernel(DATA2, [pos0 + b0] + list(rscript), len(DATA2), 0)
+        s = FakeFdStream(k, read_chunk_size=len(DATA2))
+        f0 = s.read_bytes(pos0)
+        env.run_ready()
+        assert f0.done() and f0.result() == DATA2[:pos0] and s._read_buffer_size == b0
+        s.read_chunk_size = chunk
+        notes = _cut_tags(pos0, b0, j, chunk, rscript) if P.reach is not None else ()
+        # max_bytes: None | exactly the length up to and including the first delimiter (must succeed) | one
+        # byte less (must be refused with UnsatisfiableReadError once enough has arrived); concrete per path
+        e = S2.end[False][j][pos0]
+        full = (e - pos0) if e is not None else 6
+        m = -1 if md == 0 else full if md == 1 else full - 1
+        reqs = [(RU, j, m)]
+        if tailreq == 1:
+            reqs.append((RBP, 3, -1))
+        _drive_reads(env, s, k, reqs, pos0, S2, notes)
 
 
 # ------------------------------------------------------------------------------------------
